@@ -70,6 +70,9 @@ func main() {
 	c2 := field.NewComposite(compSpec)
 	m2 := iso8583.NewMessage(spec)
 	m2.MTI("0100")
+	c3 := field.NewComposite(compSpec)
+	m3 := iso8583.NewMessage(spec)
+	m3.MTI("0100")
 	var torn []string
 	var mu sync.Mutex
 	var packs [][]byte
@@ -88,7 +91,40 @@ func main() {
 				written[val] = true
 				written[fmt.Sprint(num)] = true
 				mu.Unlock()
-				switch r.Intn(32) {
+				op := r.Intn(36)
+				if i >= n-n/3 {
+					// last third: only the grouped write / grouped unset / pack operations, so that the
+					// window between two acquisitions of a call that should hold the lock once is hit often
+					op = 32 + r.Intn(4)
+				}
+				switch op {
+				case 32:
+					short := val[:5]
+					c3.Marshal(&sub{A: field.NewStringValue(short), B: field.NewStringValue(short)})
+				case 33:
+					// one call that unsets both subfields: a Pack sees both or neither
+					c3.UnsetSubfields("01", "02")
+				case 34:
+					if p, err := c3.Pack(); err == nil && len(p) != 21 && len(p) != 3 {
+						mu.Lock()
+						torn = append(torn, fmt.Sprintf("composite packed %q: one of two subfields that are written and unset together", p))
+						mu.Unlock()
+					}
+				case 35:
+					m3.UnsetFields("2", "4", "70")
+					short := val[:5]
+					m3.Marshal(&whole{F2: field.NewStringValue(short), F4: field.NewStringValue(short), F70: field.NewStringValue(short)})
+					if p, err := m3.Pack(); err == nil {
+						g := iso8583.NewMessage(spec)
+						if g.Unpack(p) == nil {
+							n := len(g.GetFields())
+							if n != 2 && n != 5 {
+								mu.Lock()
+								torn = append(torn, fmt.Sprintf("message packed %d fields: three fields are written and unset together", n))
+								mu.Unlock()
+							}
+						}
+					}
 				case 26:
 					// operations that fail must leave the object usable (no lock left behind)
 					m.Field(999, val)
